@@ -15,12 +15,17 @@ Pairs ==
     KA(AsymKey("rsa2048a", 0, "PS384", NONE), "PS384"), KA(AsymKey("rsa2052a", 0, NONE, NONE), "RS256"),
     KA(AsymKey("p256a", 0, NONE, NONE), "ES256"), KA(AsymKey("p384a", 0, NONE, NONE), "ES384"),
     KA(AsymKey("p521a", 0, NONE, NONE), "ES512"), KA(AsymKey("k256a", 0, NONE, NONE), "ES256K"),
-    KA(AsymKey("ed25519a", 0, NONE, NONE), "EdDSA"), KA(AsymKey("ed448a", 0, NONE, NONE), "EdDSA") }
+    KA(AsymKey("ed25519a", 0, NONE, NONE), "EdDSA"), KA(AsymKey("ed448a", 0, NONE, NONE), "EdDSA"),
+    \* pairs the setkey table admits (explicit algorithm, key without alg) although no signature can be
+    \* valid for them: an HS* algorithm with a public key.  Whatever MAC the attacker computes is refused.
+    KA(AsymKey("rsa2048a", 0, NONE, NONE), "HS256"), KA(AsymKey("p256a", 0, NONE, NONE), "HS256"),
+    KA(AsymKey("ed25519a", 0, NONE, NONE), "HS512") }
   \cup (IF Quick THEN {} ELSE
   { KA(OctKey(48, "a", NONE, NONE), "HS384"), KA(OctKey(64, "a", NONE, NONE), "HS256"), KA(OctKey(160, "a", "HS512", NONE), "HS512"),
     KA(AsymKey("rsa2048a", 0, NONE, NONE), "RS384"), KA(AsymKey("rsa2048a", 0, NONE, NONE), "RS512"),
     KA(AsymKey("rsa3072a", 0, NONE, NONE), "PS512"), KA(AsymKey("rsa4096a", 0, "RS256", NONE), "RS256"),
-    KA(AsymKey("rsa2048a", 1, NONE, NONE), "RS256"), KA(AsymKey("p256a", 1, "ES256", NONE), "ES256") })
+    KA(AsymKey("rsa2048a", 1, NONE, NONE), "RS256"), KA(AsymKey("p256a", 1, "ES256", NONE), "ES256"),
+    KA(AsymKey("ed448a", 0, NONE, NONE), "HS384"), KA(AsymKey("p521a", 0, NONE, NONE), "HS512"), KA(AsymKey("rsa3072a", 0, NONE, NONE), "HS384") })
 
 Sibling(a) == CASE a = "HS256" -> "HS384" [] a = "HS384" -> "HS512" [] a = "HS512" -> "HS256"
                 [] a = "RS256" -> "RS384" [] a = "RS384" -> "RS512" [] a = "RS512" -> "PS512"
@@ -49,6 +54,7 @@ SigClasses(k, a) ==
     S("valid", a, OtherKey(k)), S("valid", Sibling(a), k) }
   \cup (IF a \in ESAlgs THEN { S("zeropad", a, k) @@ [w |-> w] : w \in {x \in {48, 66, 70} : 2 * x > EsSigLen(a)} } \cup { S("der", a, k) } ELSE {})
   \cup (IF a \in HSAlgs THEN { S("hmacempty", a, k), S("hmaczero32", a, k) @@ [len |-> 32] } ELSE {})
+  \cup (IF a \in HSAlgs /\ k.kty # "oct" THEN { S("hmacpubpem", a, k) } ELSE {})
 Alters == {"hdr", "pay", "paycase"}
 
 Pm == << StrM("sub", "x"), IntM("n", WOf(7)) >>
